@@ -40,7 +40,8 @@ Lemma cstep_cases kd s alpha id key v :
         cnotif kd id key (spec_cval (CSet alpha id key v)))
   else (s, VFault, []).
 Proof.
-  unfold cstep, cexec, spec_caccept, spec_cval, sput, oassert. destruct alpha; cbn [obind andb]; [|reflexivity].
+  unfold cstep, cexec, cset, spec_caccept, spec_cval, cop_as_set, sput, oassert.
+  destruct alpha; cbn [obind andb]; [|reflexivity].
   destruct (val_bytes v) as [b|]; cbn [obind default]; [|by rewrite andb_false_r].
   rewrite app_length. change (length config_pfx) with 6%nat.
   destruct (Nat.leb_spec (6 + length key) 64), (Nat.leb_spec (length key) 58); try lia;
@@ -49,10 +50,26 @@ Proof.
   destruct kd; [reflexivity|]. by destruct (is_bytes v).
 Qed.
 
+(** A vote (NeoFS without notary): of a non-member it faults; of a member it
+    halts, and changes the configuration exactly when it completes the tally —
+    then exactly as the authorised [SetConfig] with the same arguments. *)
+Lemma cstep_vote_cases kd s member applied id key v :
+  cstep kd s (CVote member applied id key v) =
+  if member then
+    if applied then cstep kd s (CSet true id key v) else (s, VNull, [])
+  else (s, VFault, []).
+Proof. unfold cstep, cexec, oassert. destruct member; cbn [obind]; [|reflexivity]. by destruct applied. Qed.
+
 Lemma cstep_R kd s m o : cR s m -> cR (fst (fst (cstep kd s o))) (spec_cstep kd m o).
 Proof.
-  intros H. destruct o as [alpha id key v]. rewrite cstep_cases. unfold spec_cstep.
-  destruct (spec_caccept _ _); cbn [fst]; [by apply cR_insert|exact H].
+  intros H. destruct o as [alpha id key v|member applied id key v].
+  - rewrite cstep_cases. unfold spec_cstep, spec_ckey. cbn [cop_as_set].
+    destruct (spec_caccept _ _); cbn [fst]; [by apply cR_insert|exact H].
+  - rewrite cstep_vote_cases. unfold spec_cstep, spec_ckey, spec_cval. cbn [cop_as_set].
+    destruct member, applied; cbn [andb fst]; try exact H.
+    rewrite cstep_cases.
+    change (spec_caccept kd (CVote true true id key v)) with (spec_caccept kd (CSet true id key v)).
+    unfold spec_cval. cbn [cop_as_set]. destruct (spec_caccept _ _); cbn [fst]; [by apply cR_insert|exact H].
 Qed.
 
 Lemma crun_R kd ops : forall s m, cR s m -> cR (crun kd s ops) (spec_crun kd m ops).
@@ -90,13 +107,13 @@ Qed.
 Lemma spec_crun_snoc kd m0 ops o : spec_crun kd m0 (ops ++ [o]) = spec_cstep kd (spec_crun kd m0 ops) o.
 Proof. unfold spec_crun. by rewrite fold_left_app. Qed.
 
-Lemma spec_crun_last kd m0 ops alpha id key v k :
-  spec_crun kd m0 (ops ++ [CSet alpha id key v]) !! k =
-  if spec_caccept kd (CSet alpha id key v) && bytes_eqb key k
-  then Some (spec_cval (CSet alpha id key v)) else spec_crun kd m0 ops !! k.
+Lemma spec_crun_last kd m0 ops o k :
+  spec_crun kd m0 (ops ++ [o]) !! k =
+  if spec_caccept kd o && bytes_eqb (spec_ckey o) k
+  then Some (spec_cval o) else spec_crun kd m0 ops !! k.
 Proof.
   rewrite spec_crun_snoc. unfold spec_cstep. destruct (spec_caccept _ _); cbn [andb]; [|reflexivity].
-  destruct (bytes_eqb key k) eqn:E.
+  destruct (bytes_eqb (spec_ckey o) k) eqn:E.
   - apply bytes_eqb_eq in E as ->. by rewrite lookup_insert.
   - apply bytes_eqb_neq in E. by rewrite lookup_insert_ne.
 Qed.
